@@ -109,6 +109,9 @@ void h_reg_count_areas(void)
 {
   GHOST_HAVOC();
   IN(size_t, in_term)                      /* position of a terminator */
+#ifdef RB_LIST_CAP
+  ASSUME(in_term <= RB_LIST_CAP);            /* tier A-len: list length capped, loop proof inductive */
+#endif
   ASSUME(in_term <= AREA_HANDLE_MAX);
   RegisterArea *in_list = malloc(sizeof(RegisterArea) * (in_term + 1));
   ASSUME(in_list != NULL);
@@ -122,6 +125,9 @@ void h_reg_count_entries(void)
 {
   GHOST_HAVOC();
   IN(size_t, in_term)
+#ifdef RB_LIST_CAP
+  ASSUME(in_term <= RB_LIST_CAP);
+#endif
   ASSUME(in_term <= 0x3ffffff);            /* the block must fit CBMC's largest object */
   RegisterEntry *in_list = malloc(sizeof(RegisterEntry) * (in_term + 1));
   ASSUME(in_list != NULL);
@@ -160,6 +166,13 @@ void h_ra_first_entry_of_next(void)
   GHOST_HAVOC();
   IN(uint32_t, in_start)
   ra_first_entry_of_next(rb_any_table(), rb_any_area(), in_start);
+  VERIF_CANARY();
+}
+
+void h_reg_entry_is_in_memory(void)
+{
+  GHOST_HAVOC();
+  reg_entry_is_in_memory(rb_any_table(), rb_any_entry());
   VERIF_CANARY();
 }
 
